@@ -31,7 +31,7 @@ structure Basic (env : Env) (R : World → World → Prop) : Prop where
   /-- `serialize_task_id`: hand out the next position of `h` and remember it as task id `y` -/
   reserve : ∀ (w : World) (h : Nat) (a : Act) (y : Nat), w.acts[h]? = some a →
     R w { (w.nextLevel h).1 with ids := setNat (w.nextLevel h).1.ids y (a.uuid, (w.nextLevel h).2) }
-  probe : ∀ (w : World) (p : List (Nat × Option (Nat × Level))), R w { w with probes := p }
+  probe : ∀ (w : World) (p : List (Nat × Option (Nat × Level × String))), R w { w with probes := p }
   succ : ∀ (w : World) (h : Nat) (a : Act) (fs : Fields), w.acts[h]? = some a → R w { w with acts := w.acts.set h { a with succ := a.succ.update fs } }
 
 structure BasicD (env : Env) (R : World → World → Prop) : Prop where
@@ -59,7 +59,7 @@ structure BasicD (env : Env) (R : World → World → Prop) : Prop where
   /-- `serialize_task_id`: hand out the next position of `h` and remember it as task id `y` -/
   reserve : ∀ (w : World) (h : Nat) (a : Act) (y : Nat), w.acts[h]? = some a →
     R w { (w.nextLevel h).1 with ids := setNat (w.nextLevel h).1.ids y (a.uuid, (w.nextLevel h).2) }
-  probe : ∀ (w : World) (p : List (Nat × Option (Nat × Level))), R w { w with probes := p }
+  probe : ∀ (w : World) (p : List (Nat × Option (Nat × Level × String))), R w { w with probes := p }
   succ : ∀ (w : World) (h : Nat) (a : Act) (fs : Fields), w.acts[h]? = some a → R w { w with acts := w.acts.set h { a with succ := a.succ.update fs } }
 
 namespace BasicD
@@ -93,22 +93,19 @@ theorem logNoSer (w : World) (t : String) (f : Fields) : R w (w.logNoSer env t f
   unfold World.logNoSer
   exact hb.trans (hb.currentOrFresh w) (hb.trans (hb.buildLog _ _ _ _) (hb.send _ _))
 
-theorem getFields (fuel : Nat) (w : World) (e : Exc) : R w (World.getFields env fuel w e).1 := by
-  induction fuel generalizing w e with
-  | zero => exact hb.refl w
-  | succ n ih =>
-    unfold World.getFields
-    cases firstExtractor env (env.mro (e.cls env)) with
-    | none => exact hb.refl w
-    | some f =>
-      simp only
-      cases f e w.extCalls with
-      | ok fs => exact hb.extCalls w
-      | error e' => exact hb.trans (hb.extCalls w) (hb.trans (ih _ _) (hb.logNoSer _ _ _))
+theorem getFields (w : World) (e : Exc) : R w (World.getFields env w e).1 := by
+  unfold World.getFields
+  cases firstExtractor env (env.mro (e.cls env)) with
+  | none => exact hb.refl w
+  | some f =>
+    simp only
+    cases f e w.extCalls with
+    | ok fs => exact hb.extCalls w
+    | error e' => exact hb.trans (hb.extCalls w) (hb.logNoSer _ _ _)
 
 theorem writeTraceback (w : World) (e : Exc) : R w (w.writeTraceback env e) := by
   unfold World.writeTraceback
-  exact hb.trans (hb.getFields _ w e) (hb.logNoSer _ _ _)
+  exact hb.trans (hb.getFields w e) (hb.logNoSer _ _ _)
 
 theorem serializeFields (ss : List (String × Nat)) (w : World) (m : Msg) : R w (Sys.serializeFields env w ss m).1 := by
   induction ss generalizing w m with
@@ -161,7 +158,7 @@ theorem finishRec (w : World) (h : Nat) (exc : Option Exc) : R w (w.finishRec en
       cases exc with
       | none => exact hb.trans h0 (hb.trans (hb.clock _) (hb.trans (hb.nextLevel _ _) (hb.loggerWrite _ _ _)))
       | some e =>
-        exact hb.trans h0 (hb.trans (hb.getFields _ _ e) (hb.trans (hb.clock _) (hb.trans (hb.nextLevel _ _) (hb.loggerWrite _ _ _))))
+        exact hb.trans h0 (hb.trans (hb.getFields _ e) (hb.trans (hb.clock _) (hb.trans (hb.nextLevel _ _) (hb.loggerWrite _ _ _))))
 
 theorem startAction (w : World) (task : Bool) (sp : Spec) : R w (w.startAction env task sp).1 := by
   unfold World.startAction
